@@ -163,6 +163,13 @@ def expected_outputs(op):
     elif "opts" in op and op["opts"].get("save_plot"):
         paths.append(op["opts"]["save_plot"])
     for path in paths:
+        if not os.path.splitext(path)[1]:
+            # no extension: one file per figure, and matplotlib appends its
+            # default format to each name
+            base = path
+            exact = [e for e in exact if not e.startswith(base + "_")]
+            globs = globs + [f"{base}_*"]
+            continue
         if _odd_case_pdf(path, op):
             base, ext = os.path.splitext(path)
             exact = [e for e in exact if not (e == path or e.startswith(
@@ -397,7 +404,8 @@ class C17(Check):
                       data=rng.randrange(2))
         elif kind == "lib_export":
             op.update(path=sub + "plot" + rng.choice([".pdf", ".png", ".svg",
-                                                      ".png", ".PDF", ".Png"]),
+                                                      ".png", ".PDF", ".Png",
+                                                      ""]),
                       plot_split=rng.random() < 0.3)
         elif kind == "lib_serialize":
             op.update(path=sub + "plots.pkl")
@@ -408,7 +416,8 @@ class C17(Check):
                 o["save_results"] = sub + rng.choice(["res.zip", "b.zip"])
             if r > 0.45 and rng.random() < 0.5:
                 o["save_plot"] = sub + "plot" + rng.choice([".pdf", ".png",
-                                                            ".PDF", ".pdf"])
+                                                            ".PDF", ".pdf",
+                                                            ""])
             if rng.random() < 0.15:
                 o["serialize_plot"] = sub + "plots.pkl"
             if not o:
@@ -480,12 +489,14 @@ class C17(Check):
             op["extra"] = [f for f in extra_pool if rng.random() < 0.2]
             if "--silent" in op["extra"] and "--verbose" in op["extra"]:
                 op["extra"].remove("--verbose")
+        if kind == "cli_generate":
+            op["path_form"] = rng.choice(["plain", "plain", "plain", "tilde"])
         # warnings / path type
         if kind.startswith("lib_"):
             op["confirm"] = (rng.random() < 0.75) if warn is None else warn
             op["as_path"] = (rng.random() < 0.5) if as_path is None else as_path
             op["path_form"] = rng.choice(["plain", "plain", "dot", "abs",
-                                          "updir"])
+                                          "updir", "tilde"])
             op["positional_flag"] = rng.random() < 0.3
         elif kind != "cli_generate":
             w = (rng.random() < 0.75) if warn is None else warn
@@ -519,7 +530,11 @@ class C17(Check):
         exact, globs = expected_outputs(op)
         cands = list(exact)
         for g in globs:
-            if "*" in g:
+            if g.endswith("_*"):
+                # extension-less plot target: matplotlib writes <name>.png
+                cands += [g.replace("*", n) + ".png"
+                          for n in ("trajectories", "raw", "map", "a", "b")]
+            elif "*" in g:
                 cands += [g.replace("*", n) for n in ("trajectories", "xyz",
                                                       "raw", "map", "a", "b",
                                                       "box_plot")]
@@ -630,6 +645,8 @@ class C17(Check):
             elif form == "updir" and "/" in rel:
                 d, b = rel.split("/", 1)
                 rel = f"{d}/../{d}/{b}"
+            elif form == "tilde" and "/" not in rel:
+                rel = "~/" + rel  # not expanded by any shell (quoted, config)
             return Path(rel) if op.get("as_path") else rel
 
         # the flag is an ordinary parameter: by keyword or by position
@@ -670,17 +687,20 @@ class C17(Check):
                     pc.add_figure(name, fig)
                 try:
                     if k == "lib_export":
-                        call(pc.export, op["path"])
+                        call(pc.export, str(P(op["path"])))
                     else:
-                        call(pc.serialize, op["path"])
+                        call(pc.serialize, str(P(op["path"])))
                 finally:
                     pc.close()
             return f
         if k == "cli_generate":
             def f():
                 old = sys.argv
+                out_path = op["path"]
+                if op.get("path_form") == "tilde" and "/" not in out_path:
+                    out_path = "~/" + out_path
                 sys.argv = ["evo_config", "generate", "--no_color"] + list(
-                    op["argv"]) + ["-o", op["path"]]
+                    op["argv"]) + ["-o", out_path]
                 try:
                     evo.main_config.main()
                 finally:
@@ -745,6 +765,9 @@ class C17(Check):
         data = self._data(case["seed"] % 5)
         self._cur_data = data
         sb.reset()
+        # evo's own settings are loaded already; from here on "~" is the
+        # sandbox, so a literal "~/name" output path names a sandbox file
+        os.environ["HOME"] = sb.root
         trail = []
         violation = None
         S = evo.settings.SETTINGS
